@@ -221,16 +221,22 @@ def check_settling(case, r: R):
         with r.lib('DCSolution'):
             dc = DCSolution(cc.lib_circuit(spec))
         with r.lib('final-values'):
+            # after 14 tau_max the deviation from the final value has decayed to exp(-14) = 8e-7 of its largest
+            # excursion - which may exceed the DC scale by orders of magnitude (1 A switched into an inductor that is
+            # bridged by 20 kOhm: a 20 kV spike over a 1 V DC solution). Tolerance = DC scale + 1e-5 of that excursion.
             for nd in ref.nodes:
-                y = sol.get_potential(nd)[1][-1]
-                if abs(y - complex(dcx['phi'][nd]).real) > 2e-3 * S_phi:
-                    r.fail('does-not-settle-to-dc[potential]', f'node {nd!r}: final {y} DC {complex(dcx["phi"][nd]).real}')
-                if dc is not None and abs(y - dc.get_potential(nd)) > 2e-3 * S_phi:
+                ys = np.asarray(sol.get_potential(nd)[1], dtype=float)
+                y, want = ys[-1], complex(dcx['phi'][nd]).real
+                lim = 2e-3 * S_phi + 1e-5 * float(np.abs(ys - want).max())
+                if not abs(y - want) <= lim:
+                    r.fail('does-not-settle-to-dc[potential]', f'node {nd!r}: final {y} DC {want}')
+                if dc is not None and not abs(y - dc.get_potential(nd)) <= lim:
                     r.fail('does-not-settle-to-DCSolution', f'node {nd!r}: final {y} DCSolution {dc.get_potential(nd)}')
             for i in ref.ids:
-                y = sol.get_current(i)[1][-1]
-                if abs(y - complex(dcx['I'][i]).real) > 2e-3 * imax:
-                    r.fail('does-not-settle-to-dc[current]', f'{i!r}: final {y} DC {complex(dcx["I"][i]).real}')
+                ys = np.asarray(sol.get_current(i)[1], dtype=float)
+                y, want = ys[-1], complex(dcx['I'][i]).real
+                if not abs(y - want) <= 2e-3 * imax + 1e-5 * float(np.abs(ys - want).max()):
+                    r.fail('does-not-settle-to-dc[current]', f'{i!r}: final {y} DC {want}')
         return
     # sinusoidal: replace the voltage sources by ac sources of one common frequency
     w = case['wf'] / tau_max * 5
@@ -260,9 +266,10 @@ def check_settling(case, r: R):
     amp = max(abs(c['args']['V']) for c in vsrc)
     with r.lib('steady-state'):
         for nd in ref.nodes:
-            y = np.asarray(sol.get_potential(nd)[1])[last]
+            ys = np.asarray(sol.get_potential(nd)[1], dtype=float)
+            y = ys[last]
             z = np.asarray(td.get_potential(nd)(t[last]), dtype=float)
-            if np.abs(y - z).max() > 5e-3 * amp:
+            if not np.abs(y - z).max() <= 5e-3 * amp + 1e-5 * float(np.abs(ys).max()):
                 r.fail('does-not-settle-to-periodic-steady-state', f'node {nd!r}: max deviation {np.abs(y - z).max()} (amplitude {amp})')
 
 
